@@ -462,9 +462,39 @@ def solve_versus_loop(ctx):
             ctx.violation('linker-solve-vs-loop', f'solve({kw}): call #{k} was {la[k] if k < len(la) else None}; in the ordered loop of solve_t it is {lb[k] if k < len(lb) else None}', case)
 
 
+def labelled_twin(ctx):
+    """The single-model twin over time-index spans, with periods named the way such spans allow (date / period strings): the
+    linker's own span is of the submodels' span type, so the same labels name the same periods."""
+    import fsic
+    import pandas as pd
+    Model = fsic.build_model(fsic.parse_model('Y = 0.5 * Y[-1] + X\nZ = 0.9 * Z[0] + Y'))
+    kinds = {'pd.PeriodIndex[Y]': (lambda: pd.period_range(start='2000', periods=8, freq='Y'), '2002', '2005', '2006'),
+             'pd.PeriodIndex[Q]': (lambda: pd.period_range(start='2000Q1', periods=8, freq='Q'), '2000Q3', '2001Q2', '2001Q4'),
+             'pd.DatetimeIndex[D]': (lambda: pd.date_range(start='2001-02-27', periods=8, freq='D'), '2001-02-28', '2001-03-03', '2001-03-05'),
+             'list[str]': (lambda: [f'p{i}' for i in range(8)], 'p2', 'p5', 'p6'),
+             'ndarray[int64]': (lambda: np.arange(1990, 1998), 1992, 1995, 1996)}
+    for k, (kind, (mk, a_, b_, c_)) in enumerate(kinds.items()):
+        if not ctx.mine(k):
+            continue
+        a, b = Model(mk(), X=2.0), Model(mk(), X=2.0)
+        linker = fsic.BaseLinker({'only': b})
+        case = dict(kind='labelled-twin', span_kind=kind)
+        ctx.evaluation(case, nontrivial=True, sample=case)
+        ctx.count('single_model_twins')
+        if type(linker.span) is not type(b.span) or list(linker.span) != list(b.span):
+            ctx.violation('single-model-linker-differs', f'the linker over a {type(b.span).__name__} span has a {type(linker.span).__name__} span', case)
+            continue
+        ra = [call(a.solve, start=a_, end=b_, failures='ignore', max_iter=50), call(a.solve_period, c_, failures='ignore', max_iter=50)]
+        rb = [call(linker.solve, start=a_, end=b_, failures='ignore', max_iter=50), call(linker.solve_period, c_, failures='ignore', max_iter=50)]
+        diff = scripted.changed_cells(scripted.snapshot_model(a), scripted.snapshot_model(b))
+        if repr(ra) != repr(rb) or diff:
+            ctx.violation('single-model-linker-differs', f'{kind}: solve(start={a_!r}, end={b_!r}) / solve_period({c_!r}) directly -> {str(ra)[:200]}; via the linker -> {str(rb)[:200]}; differing cells {sorted(diff)[:6]}', case)
+
+
 def single_model_twin(ctx):
     """A linker wrapping one model and adding no equations == the model solved directly."""
     import fsic
+    labelled_twin(ctx)
     rng = ctx.rng('c08-twin')
     scripts = ['Y = C + G\nC = {c} * Y[0]', 'Y = 0.5 * Y[-1] + X\nZ = 0.9 * Z[0] + Y', 'x = {a} * y + 1\ny = {b} * x[0] + 2',
                'H = H[-1] + YD - C\nYD = Y - T\nT = {theta} * Y\nY = C + G\nC = {a1} * YD + {a2} * H[-1]',
